@@ -397,6 +397,50 @@ func c04Iteration(c *Ctx, impls []*types.Named, rule string) {
 		if w, k := walkDelegate(fe, 1); w != nil {
 			fe, cbParam = w, ssa.Value(w.Params[k])
 		}
+		// the walk ends when its range is exhausted or the callback asks to stop — on nothing else: a loop around a
+		// callback call is never left on a test of weights (a running total "used up" stops early when a heavy bin
+		// has absorbed the light ones in floating point)
+		{
+			badExit := ""
+			for _, l := range naturalLoops(fe) {
+				hasCB := false
+				for b := range l.body {
+					for _, in := range b.Instrs {
+						if call, ok := in.(*ssa.Call); ok && call.Common().Value == cbParam {
+							hasCB = true
+						}
+					}
+				}
+				if !hasCB {
+					continue
+				}
+				for b := range l.body {
+					iff, ok := b.Instrs[len(b.Instrs)-1].(*ssa.If)
+					if !ok {
+						continue
+					}
+					exits := false
+					for _, sc := range b.Succs {
+						if !l.body[sc] {
+							exits = true
+						}
+					}
+					if !exits {
+						continue
+					}
+					if bo, ok := iff.Cond.(*ssa.BinOp); ok {
+						isFloat := func(v ssa.Value) bool {
+							bt, ok := v.Type().Underlying().(*types.Basic)
+							return ok && bt.Info()&types.IsFloat != 0
+						}
+						if isFloat(bo.X) || isFloat(bo.Y) {
+							badExit = "the iteration is left on a comparison of weights at " + c.ipos(iff)
+						}
+					}
+				}
+			}
+			c.R.check(badExit == "", rule, name+"/ends-only-when-exhausted-or-stopped", name, c.fpos(fe), "a loop that calls the callback is left only by its range test or on the callback's verdict, never on a test of weights", firstNonEmpty(badExit, "ok"))
+		}
 		nth := 0
 		for _, b := range fe.Blocks {
 			for _, in := range b.Instrs {
@@ -1387,6 +1431,66 @@ func c04PageSlots(c *Ctx, pr *paginatedRoles, rule string, table map[string]bool
 		}
 	}
 	c.R.floor(rule, "page slots computed from the first page index", n, 4)
+	// the other direction — from a slot back to indexes: a walk over the table (`for pageOffset, page := range pages`)
+	// turns a slot number into a page number by adding the table's first page index BEFORE anything else is done with
+	// it (`(first + pageOffset) << log2`, or the index helper on that sum); a slot number that is shifted or scaled on
+	// its own (`first + pageOffset<<log2`) yields indexes of other pages
+	nw := 0
+	for _, f := range c.P.Funcs {
+		if !inModule(f) || len(f.Blocks) == 0 {
+			continue
+		}
+		for _, b := range f.Blocks {
+			for _, in := range b.Instrs {
+				// `for pageOffset, page := range pages` over a slice: page = pages[k] with k = rangeindex + 1
+				ia, ok := in.(*ssa.IndexAddr)
+				if !ok {
+					continue
+				}
+				tl, fld := fieldLoad(ia.X)
+				if tl == nil || !table[fld] || derefType(tl.Type()).String() != "[][]float64" {
+					continue
+				}
+				key, ok := ia.Index.(*ssa.BinOp)
+				if !ok || key.Op != token.ADD {
+					continue
+				}
+				ph, ok := key.X.(*ssa.Phi)
+				if !ok || ph.Comment != "rangeindex" || key.Referrers() == nil {
+					continue
+				}
+				used := false
+				bad := ""
+				for _, u := range *key.Referrers() {
+					switch u := u.(type) {
+					case *ssa.BinOp:
+						switch u.Op {
+						case token.EQL, token.NEQ, token.LSS, token.LEQ, token.GTR, token.GEQ:
+						case token.ADD:
+							used = true
+							other := u.X
+							if u.X == ssa.Value(key) {
+								other = u.Y
+							}
+							if _, ofld := fieldLoad(other); !(table[ofld] && derefType(other.Type()).String() == "int") {
+								bad = "the slot number is added to something else than the table's first page index at " + c.ipos(u)
+							}
+						default:
+							used = true
+							bad = "the slot number is combined by " + u.Op.String() + " on its own at " + c.ipos(u) + ", before the table's first page index is added"
+						}
+					}
+				}
+				if !used {
+					continue
+				}
+				nw++
+				c.R.check(bad == "", rule, fmt.Sprintf("page-table/%s/walk-slot-to-page", helperKey(f)), shortFn(f), c.ipos(ia),
+					"a slot number of the page table becomes a page number by adding the first page index before any other arithmetic", firstNonEmpty(bad, "first + slot"))
+			}
+		}
+	}
+	c.R.floor(rule, "walks over the page table that use the slot number", nw, 2)
 }
 
 // c04PageUse: what the page accessor returns for ensureExists == false may be nil OR an emptied slot (Clear keeps the
